@@ -17,6 +17,8 @@ def run_case(case):
     from sympy.core.cache import clear_cache
     clear_cache()
     env = ser.Env(dim=case["dim"])
+    if case.get("tensor"):
+        return run_tensor(case, env)
     expr = ser.build_sx(case["tree"], env)
     try:
         out = {"in": ser.ser_sx(expr)}
@@ -54,6 +56,58 @@ def run_case(case):
             want = sp.diff(want, conc.syms[bool(lg)][i])
         got = conc.sx(out["out"], fam)
         ok, info = ser.numeric_equal(got, want, conc)
+        out["oracle"] = {"ok": bool(ok), "info": info}
+    except Exception as e:  # noqa
+        out["oracle"] = {"ok": None, "info": "oracle failed: %s" % str(e)[:200]}
+    return out
+
+
+def run_tensor(case, env):
+    """vector functions, tuples and matrices are differentiated entry-wise"""
+    import sympy as sp
+    t = case["tensor"]
+    if t["k"] == "vecfn":
+        arg = env.vector(t["f"])
+        entries = [[arg[i] for i in range(case["dim"])]]
+    elif t["k"] == "tuple":
+        entries = [[ser.build_sx(e, env) for e in t["items"]]]
+        arg = sp.Tuple(*entries[0])
+    else:
+        entries = [[ser.build_sx(e, env) for e in row] for row in t["rows"]]
+        arg = sp.ImmutableDenseMatrix(entries)
+    out = {"in": {"k": "mat", "rows": [[ser.ser_sx(e) for e in row] for row in entries]}}
+    ops = ser.dops()
+    res = arg
+    try:
+        for lg, i in reversed(case["ops"]):
+            res = ops[bool(lg)][i](res)
+        out["out"] = ser.ser_any(res)
+    except NotImplementedError:
+        out["out"] = {"err": "not-implemented", "arg": None}
+        return out
+    except ser.Unsupported as e:
+        out["out"] = {"err": "unsupported-node", "msg": str(e)}
+        return out
+    except Exception as e:  # noqa
+        out["out"] = {"err": type(e).__name__, "msg": str(e)[:200]}
+        return out
+    try:
+        rng = random.Random(case.get("seed", 0))
+        conc = ser.Concrete(rng, dim=case["dim"])
+        fam = bool(case["ops"][0][0])
+        ok, info = True, {}
+        flat_in = [e for row in out["in"]["rows"] for e in row]
+        flat_out = [e for row in out["out"]["rows"] for e in row] if out["out"].get("k") == "mat" else [out["out"]]
+        if len(flat_in) != len(flat_out):
+            ok, info = False, {"shape": "entries %d -> %d" % (len(flat_in), len(flat_out))}
+        else:
+            for a, b in zip(flat_in, flat_out):
+                want = conc.sx(a, fam)
+                for lg, i in reversed(case["ops"]):
+                    want = sp.diff(want, conc.syms[bool(lg)][i])
+                ok, info = ser.numeric_equal(conc.sx(b, fam), want, conc)
+                if not ok:
+                    break
         out["oracle"] = {"ok": bool(ok), "info": info}
     except Exception as e:  # noqa
         out["oracle"] = {"ok": None, "info": "oracle failed: %s" % str(e)[:200]}
